@@ -6,6 +6,7 @@ from ..core import rule
 from ..index import AnalysisError, dotted, src, walk_no_nested, names_in
 from ..domains import Lin
 from ..symexec import SymExec
+from ..util import explore, mk_atoms
 from .slots import FRAG_NLA, FRAG_CHIC
 
 SYMBOLS = {
@@ -192,9 +193,19 @@ def r3(ctx):
              ('site recorded with valid=False and None returned' if not bad else f'a site is assigned/returned: valid={bad[0]["valid"]}, returns {bad[0]["returned"]}'),
              key='NlaIII:reject-without-motif', what='NlaIII: fragment without CATG is assigned a valid site')
     ss = ctx.fn(FRAG_NLA, 'NlaIIIFragment.set_site')
-    ifs = [s for s in ss.body if isinstance(s, ast.If) and src(s.test) == 'not valid']
-    ok = len(ifs) == 1 and any(src(x) == 'self.found_valid_site = False' for x in ifs[0].body) and any(src(x) == 'self.found_valid_site = True' for x in ifs[0].orelse) \
-        and any("set_meta('DS', site_pos)" in src(x) for x in ifs[0].orelse) and not any("'DS'" in src(x) for x in ifs[0].body)
+    vp = 'valid'
+    pos_p = ss.args.args[2].arg
+    ok = True
+    for valid in (True, False):
+        rs = [r for r in explore(ss.body, mk_atoms({vp: valid})) if r['kind'] in ('fall', 'return')]
+        for r in rs:
+            fv = [v for t, v, k in r['stores'] if t == 'self.found_valid_site']
+            ds = [c for c in r['calls'] if c.replace('"', "'").startswith("self.set_meta('DS'")]
+            if valid:
+                ok = ok and fv[-1:] == ['True'] and len(ds) == 1 and ds[0].replace('"', "'") == f"self.set_meta('DS', {pos_p})"
+            else:
+                ok = ok and fv[-1:] in ([], ['False']) and not ds
+        ok = ok and bool(rs)
     ctx.emit('C09-R3', ok, FRAG_NLA, ss, 'set_site: valid=False leaves found_valid_site False and writes no DS tag; valid=True sets both', key='NlaIII:set_site-valid')
     first = f.body[0]
     ctx.emit('C09-R3', src(first) == 'self.found_valid_site = False', FRAG_NLA, first, 'identify_site starts from found_valid_site = False', key='NlaIII:initial-invalid', nontrivial=False)
